@@ -628,6 +628,10 @@ class FnTr:
             if ('CriticalFailure' in s or '__assert_fail' in s) and len(m['inner']) == 2:
                 c = m['inner'][0]
                 return ('not', c)
+            # (additive) `if (e) throw X(..);` without else: a contract check like a failed assertion - the negated condition is a
+            # recorded precondition (before this, such a statement was silently dropped: Compass::compassDirection)
+            if len(m['inner']) == 2 and '"kind": "CXXThrowExpr"' in s and body.get('kind') in ('CXXThrowExpr', 'ExprWithCleanups'):
+                return ('not', m['inner'][0])
         return None
 
     def assigned(self, n, declared=None):
